@@ -95,6 +95,14 @@ ValueCases(w) ==
            Case("list2", F \o <<58,40>> \o X \o <<32,79,82,32>> \o s \o <<41>>, {F}, {w, X}, ""),                       \* f:(x OR s)
            Case("list3", F \o <<58,40>> \o X \o <<32,79,82,32,121,32,79,82,32>> \o s \o <<41>>, {F}, {w, X, <<121>>}, ""),   \* f:(x OR y OR s)
            Case("not", <<78,79,84,32>> \o F \o Colon \o s, {F}, {w}, ""),
+           \* a comparison / a field whose value is a parenthesised field expression: f:>=(g:s)  f:<(g:[s TO z])  f:(g:s)
+           Case("cmp_group", F \o <<58,62,61,40,103,58>> \o s \o <<41>>, {F, <<103>>}, {w}, ""),
+           Case("cmp_group_range", F \o <<58,60,40,103,58,91>> \o s \o <<32,84,79,32,122,93,41>>, {F, <<103>>}, {w, <<122>>}, ""),
+           Case("eq_group", F \o <<58,40,103,58>> \o s \o <<41>>, {F, <<103>>}, {w}, ""),
+           \* compound range bounds (rejected by the parser today; if accepted, the SQL must still be one confined expression)
+           Case("range_notlo", F \o <<58,91,78,79,84,32>> \o s \o <<32,84,79,32,122,93>>, {F}, {w, <<122>>}, ""),               \* f:[NOT s TO z]
+           Case("range_orlo", F \o <<58,91,40>> \o s \o <<32,79,82,32,120,41,32,84,79,32,122,93>>, {F}, {w, X, <<122>>}, ""),   \* f:[(s OR x) TO z]
+           Case("range_orhi", F \o <<58,91,97,32,84,79,32,40>> \o s \o <<32,79,82,32,120,41,93>>, {F}, {w, X, <<97>>}, ""),     \* f:[a TO (s OR x)]
            Case("and", F \o Colon \o s \o <<32,65,78,68,32,103,58,121>>, {F, <<103>>}, {w, <<121>>}, ""),
            Case("bare", s, {}, {w}, ""),
            Case("bare_df", s, {<<100>>}, {w}, "d") } : s \in Spell(w)}
